@@ -106,7 +106,7 @@ static void check(const Case &c) {
 
     am::M().reset();
     LinkedGeoPolygon out;
-    memset(&out, 0, sizeof out);
+    memset(&out, 0xA5, sizeof out);  // poison: the function must initialise the head node itself (callers pass an uninitialised struct)
     H3Error e = va_cellsToLinkedMultiPolygon(c.cells.data(), (int)n, &out);
     if (e != E_SUCCESS) {
         size_t leaked = am::M().live.size();
